@@ -135,13 +135,15 @@ impl Decoder for ClientCodec {
         );
 
         if let Some((req, payload)) = self.inner.decoder.decode(src)? {
-            if let Some(conn_type) = req.conn_type() {
+            match req.conn_type() {
                 // do not use peer's keep-alive
-                self.inner.conn_type = if conn_type == ConnectionType::KeepAlive {
-                    self.inner.conn_type
-                } else {
-                    conn_type
-                };
+                Some(ConnectionType::KeepAlive) => {}
+                Some(conn_type) => self.inner.conn_type = conn_type,
+                // an HTTP/1.0 response is persistent only if it says so
+                None if req.version < Version::HTTP_11 => {
+                    self.inner.conn_type = ConnectionType::Close;
+                }
+                None => {}
             }
 
             if !self.inner.flags.contains(Flags::HEAD) {
@@ -269,6 +271,59 @@ mod tests {
         buf.extend_from_slice(head.as_bytes());
         codec.decode(buf).unwrap().unwrap();
         codec.into_payload_codec()
+    }
+
+    #[actix_rt::test]
+    async fn http10_response_without_keep_alive_is_not_persistent() {
+        let mut buf = BytesMut::new();
+
+        let mut codec = ClientCodec::default();
+        codec
+            .encode(
+                Message::Item((
+                    RequestHeadType::Owned(crate::RequestHead::default()),
+                    BodySize::None,
+                )),
+                &mut buf,
+            )
+            .unwrap();
+        assert!(codec.keep_alive());
+        buf.clear();
+        buf.extend_from_slice(b"HTTP/1.0 200 OK\r\ncontent-length: 3\r\n\r\nabc");
+        codec.decode(&mut buf).unwrap().unwrap();
+        assert!(!codec.keep_alive());
+
+        let mut codec = ClientCodec::default();
+        codec
+            .encode(
+                Message::Item((
+                    RequestHeadType::Owned(crate::RequestHead::default()),
+                    BodySize::None,
+                )),
+                &mut buf,
+            )
+            .unwrap();
+        buf.clear();
+        buf.extend_from_slice(
+            b"HTTP/1.0 200 OK\r\ncontent-length: 3\r\nconnection: keep-alive\r\n\r\nabc",
+        );
+        codec.decode(&mut buf).unwrap().unwrap();
+        assert!(codec.keep_alive());
+
+        let mut codec = ClientCodec::default();
+        codec
+            .encode(
+                Message::Item((
+                    RequestHeadType::Owned(crate::RequestHead::default()),
+                    BodySize::None,
+                )),
+                &mut buf,
+            )
+            .unwrap();
+        buf.clear();
+        buf.extend_from_slice(b"HTTP/1.1 200 OK\r\ncontent-length: 3\r\n\r\nabc");
+        codec.decode(&mut buf).unwrap().unwrap();
+        assert!(codec.keep_alive());
     }
 
     #[actix_rt::test]
